@@ -87,6 +87,31 @@ def check_jsolve(R, drv, mod, istim, dt, inp):
         if not o_r["sat"]:       # its conclusion, evaluated: the result satisfies every row of the system the arrays denote
             R.disagree("flat-solver-model-does-not-solve-its-system", input=ji)
         R.count("jsolve:padding-identity" if o_r["pad"] else "jsolve:padding-not-identity")
+        # the ARRAY ASSEMBLY of step_voltage_implicit_with_jaxley_spsolve (Model.AssembleJaxley) on the captured inputs: the model's arrays
+        # are the arrays the code handed to the solver; the structural hypothesis of the assembly theorems holds for the captured edge
+        # table; in exact arithmetic the values read back satisfy the physical edge-list system (conclusion of
+        # `jaxley_backend_solves_physical_system`, evaluated); the implementation's voltages equal the exact read-back
+        if backend == "jaxley.thomas" and "asm" in rec:
+            from jsolvelib import jasm_line, parse_jasm
+            a_r, a_f = [parse_jasm(l) for l in drv.batch([jasm_line(rec, "rat"), jasm_line(rec, "float")])]
+            R.evaluations += 1
+            if a_r is None or a_f is None:
+                R.disagree("jasm-driver-error", input=ji)
+            else:
+                R.count("jasm:ok")
+                if not a_r["ewf"]:
+                    R.disagree("edge-table-not-well-formed", input=ji)
+                if not a_r["phys"]:
+                    R.disagree("assembled-and-solved-model-does-not-satisfy-physical-system", input=ji)
+                lowers, diags, uppers, solves, cc, cp, wc, wp, bpd, bps = rec["in"]
+                for nm_, cap in (("diags", diags), ("lowers", lowers), ("uppers", uppers), ("solves", solves), ("bpd", bpd), ("bps", bps),
+                                 ("cc", cc), ("wc", wc), ("cp", cp), ("wp", wp)):
+                    cap = np.asarray(cap, dtype=np.float64).ravel(); mdl = a_f["arrays"][nm_]
+                    if cap.shape != mdl.shape or (cap.size and not np.allclose(cap, mdl, rtol=1e-12, atol=1e-300)):
+                        R.disagree("assembled-array", array=nm_, input=ji, impl=cap.tolist(), model=mdl.tolist())
+                vimpl = np.asarray(rec["v"], dtype=np.float64)
+                if a_r["x"].shape != vimpl.shape or not (np.max(np.abs(a_r["x"] - vimpl)) <= TOL_DIFF * (1.0 + float(np.max(np.abs(vimpl))))):
+                    R.disagree("assembled-solved-voltages", input=ji, impl=vimpl.tolist(), model=a_r["x"].tolist())
         out = rec["out"]
         scale = 1.0 + float(np.max(np.abs(out)))
         xf, xr = np.asarray(o_f["x"]), np.asarray(o_r["x"])
